@@ -52,6 +52,10 @@ def registry(auto=False, nit="Fraction"):
     return _REG[k]
 
 
+STANDARD_SCALES = {"kelvin": (Fraction(1), Fraction(0)), "degree_Rankine": (Fraction(5, 9), Fraction(0)), "degree_Celsius": (Fraction(1), Fraction(27315, 100)),
+                   "degree_Fahrenheit": (Fraction(5, 9), Fraction(45967, 180)), "degree_Reaumur": (Fraction(5, 4), Fraction(27315, 100))}
+
+
 def units_table():
     """name -> (kind, scale, offset) ; kinds: A absolute multiplicative, O offset, D delta"""
     R = env.R()
@@ -216,7 +220,29 @@ def case_compound(case, col=None):
         raise Violation(f"compound_offset_conversion_wrong_exception:{exc_class(r)}", f"{r!r}")
 
 
+def case_scale(case, col=None):
+    """the five bundled temperature scales are fixed by their definitions (0 degC = 273.15 K, 32 degF = 0 degC with 1.8 degF per kelvin, ...):
+    what the definition files say, and what the registry computes, is compared with these constants (an error in the files is otherwise
+    invisible to an oracle that reads the same files)"""
+    R = env.R()
+    n = case["unit"]
+    s_, o_ = STANDARD_SCALES[n]
+    if col is not None:
+        col.case(("scale", n), True, sample=case, cls="standard_scale")
+    got = (Fraction(R.resolve(n).factor), Fraction(R.offset_of(n) or 0))
+    if got != (s_, o_):
+        raise Violation(f"bundled_temperature_scale_differs_from_standard:{n}", f"definition files: 1 {n} = x * {got[0]} + {got[1]} K, standard x * {s_} + {o_} K")
+    ureg = registry(False)
+    for x in (Fraction(0), Fraction(100), Fraction(-40)):
+        k = ureg.Quantity(x, n).to("kelvin").magnitude
+        if isinstance(k, float) or Fraction(k) != x * s_ + o_:
+            raise Violation(f"bundled_temperature_scale_differs_from_standard:{n}:registry", f"Q({x},{n}).to(kelvin) = {k!r}, standard {x * s_ + o_}")
+
+
 def run_convert(task, tier, seed, col):
+    if task["shard"] == 0:
+        for n in STANDARD_SCALES:
+            col.run_case(lambda c: case_scale(c, col), {"unit": n})
     offs = sorted(n for n, v in tab().items() if v[0] == "O")
     cstrat = st.builds(lambda o, x, other, dst, auto: {"off": o, "x": x, "other": other, "dst": dst, "auto": auto}, st.sampled_from(offs), xs(),
                        st.sampled_from(["meter", "second", "gram"]), st.sampled_from(["same_dim", "drop_factor", "other_offset", "unrelated"]), st.booleans())
@@ -591,6 +617,8 @@ def run_task(task, tier, seed, col):
 
 
 def replay(sub, case):
+    if sub == "convert" and set(case) == {"unit"}:
+        return case_scale(case)
     if sub == "muldiv":
         tab()["meter"] = ("A", Fraction(1), Fraction(0))
     return {"convert": case_convert, "addsub": case_addsub, "muldiv": case_muldiv, "inplace": case_inplace, "log": case_log, "logarith": case_logarith}[sub if not (sub == "convert" and "off" in case) else "compound"](case) if not (sub == "convert" and "off" in case) else case_compound(case)
